@@ -171,14 +171,18 @@ func atLimit(n int) []env.Op {
 
 var scenarios2 = []scenario{
 	{Name: "empty: install‖install", Ops: []env.Op{inst(false), inst(false)}},
-	{Big: true, Name: "empty: install‖install --replace", Ops: []env.Op{inst(false), inst(true)}},
+	{Name: "empty: install‖install --replace", Ops: []env.Op{inst(false), inst(true)}},
 	{Name: "deployed: upgrade‖upgrade", Setup: atLimit(1), Ops: []env.Op{up(0), up(0)}},
 	{Name: "deployed: upgrade‖install", Setup: atLimit(1), Ops: []env.Op{up(0), inst(false)}},
 	{Name: "deployed: upgrade‖install --replace", Setup: atLimit(1), Ops: []env.Op{up(0), inst(true)}},
 	{Big: true, Name: "at limit 1: upgrade‖upgrade max-history=1", Setup: atLimit(1), Ops: []env.Op{up(1), up(1)}},
 	{Big: true, Name: "at limit 2: upgrade‖upgrade max-history=2", Setup: atLimit(2), Ops: []env.Op{up(2), up(2)}},
 	{Big: true, Name: "at limit 3: upgrade‖upgrade max-history=3", Setup: atLimit(3), Ops: []env.Op{up(3), up(3)}},
+	{Name: "empty: install‖install --atomic", Ops: []env.Op{inst(false), instAtomic()}},
+	{Name: "empty: install --atomic‖install --atomic", Ops: []env.Op{instAtomic(), instAtomic()}},
 }
+
+func instAtomic() env.Op { return env.Op{Kind: "install", Atomic: true, NoHooks: true} }
 
 var scenarios3 = []scenario{
 	{Name: "empty: install‖install‖install", Ops: []env.Op{inst(false), inst(false), inst(false)}},
@@ -195,6 +199,9 @@ func opLabel(o env.Op) string {
 	}
 	if o.MaxHistory > 0 {
 		s += " --history-max"
+	}
+	if o.Atomic {
+		s += " --atomic"
 	}
 	return s
 }
